@@ -12,7 +12,7 @@
    [d] is an arbitrary item list (values are arbitrary byte strings), [o] an
    arbitrary record of crypto-oracle answers. *)
 From Coq Require Import List NArith Arith Bool.
-From AHK Require Import Lib.Res Lib.ByteStr Model.Tlv Proofs.Tlv Model.Steps Proofs.Steps.
+From AHK Require Import Lib.Res Lib.ByteStr Model.Tlv Proofs.Tlv Model.Steps Proofs.Steps Model.StepsBle Proofs.StepsBle.
 Import ListNotations.
 
 (* every step (setup M2/M4/M6, verify M2/M4), every reply with an Error item or
@@ -178,6 +178,123 @@ Proof.
   - exists [4%N]. split; [vm_compute; reflexivity|discriminate].
 Qed.
 
+(* ==== extension: the BLE reply path (Model/StepsBle.v) =======================
+   [exchange] = (PDU status, PDU body) of one GATT transaction; [step_ble s o xs] = the generator step behind
+   drive_pairing_state_machine / _pairing_char_write / char_write on the script [xs];
+   [ble_script pieces last] = the accessory sending a TLV blob as FragmentData pieces + a FragmentLast piece,
+   each wrapped as the Value parameter of a successful PDU. *)
+
+(* however the accessory cuts the reply (any number < 50 of pieces of any sizes, also empty ones),
+   the generator sees exactly the reply *)
+Theorem ble_fragmented_reply_is_the_reply : forall s o d blob pieces last,
+    tlv_encode d = Ok blob -> no_adj d = true -> concat pieces ++ last = blob -> length pieces < 50 ->
+    step_ble s o (ble_script pieces last) = step_items s o d.
+Proof. exact ble_frag_step. Qed.
+
+Theorem ble_err_never_success_fragmented : forall s o d blob pieces last,
+    tlv_encode d = Ok blob -> no_adj d = true -> concat pieces ++ last = blob -> length pieces < 50 ->
+    bad_reply d (expected_state s) ->
+    exists e, step_ble s o (ble_script pieces last) = Err e.
+Proof. exact ble_frag_never_success. Qed.
+
+Theorem ble_err_class_fragmented : forall s o d blob pieces last code,
+    tlv_encode d = Ok blob -> no_adj d = true -> concat pieces ++ last = blob -> length pieces < 50 ->
+    state_ok d (expected_state s) -> error_is d code ->
+    step_ble s o (ble_script pieces last) = Err (documented_class code).
+Proof. exact ble_frag_class. Qed.
+
+Theorem ble_unfragmented_reply : forall s o d payload,
+    tlv_decode payload = Ok d -> lookup 13 d = None -> lookup 12 d = None ->
+    step_ble s o [wrap payload] = step_items s o d.
+Proof. exact ble_plain_step. Qed.
+
+(* ANY script of exchanges - any statuses, bodies, fragmentation, garbage: a step succeeds only if what
+   _pairing_char_write handed over carries no Error item and no wrong State *)
+Theorem ble_success_only_on_clean_reply : forall s o xs p,
+    step_ble s o xs = Ok p ->
+    exists d, ble_exchange xs = Ok d /\ ~ bad_reply d (expected_state s).
+Proof. exact ble_success_clean. Qed.
+
+(* a PDU status other than success fails the step whatever the body says *)
+Theorem ble_pdu_status_fails_step : forall s o st body rest,
+    st <> 0%N -> (st <= 6)%N -> step_ble s o ((st, body) :: rest) = Err EPduStatus.
+Proof. exact ble_pdu_status_fails. Qed.
+
+Theorem ble_pdu_status_never_success : forall s o st body rest p,
+    st <> 0%N -> step_ble s o ((st, body) :: rest) <> Ok p.
+Proof. exact ble_pdu_status_never_ok. Qed.
+
+Theorem pairing_mgmt_ble_done_only_on_clean_reply : forall op x,
+    mgmt_ble op x = Ok MDone ->
+    fst x = 0%N /\ exists d, mgmt_payload op (snd x) = Some d /\ ~ bad_reply d 2.
+Proof. exact mgmt_ble_done_clean. Qed.
+
+Theorem pairing_mgmt_ble_never_done : forall op d reply,
+    (op = BleAdd \/ op = BleRemove) -> tlv_encode d = Ok reply -> no_adj d = true ->
+    bad_reply d 2 -> exists e, mgmt_ble op (wrap reply) = Err e.
+Proof. exact mgmt_ble_never_done. Qed.
+
+(* ==== extension: the error mapping is total and injective on the documented codes ============ *)
+Theorem class_injective : forall c1 c2,
+    documented_code c1 -> documented_code c2 -> documented_class c1 = documented_class c2 -> c1 = c2.
+Proof. exact documented_injective. Qed.
+
+(* every step: an Error item under a right/absent State yields its own class for 2..7 (never Invalid) and
+   Invalid for every other code byte string *)
+Theorem err_class_total : forall s o d code,
+    state_ok d (expected_state s) -> error_is d code ->
+    (documented_code code /\ step_items s o d = Err (documented_class code) /\ documented_class code <> EInvalid)
+    \/ (~ documented_code code /\ step_items s o d = Err EInvalid).
+Proof. exact step_class_total. Qed.
+
+(* the exception raised identifies the documented code: per step, across oracle answers, replies and transports *)
+Theorem err_class_injective : forall s o1 o2 d1 d2 c1 c2,
+    documented_code c1 -> documented_code c2 ->
+    state_ok d1 (expected_state s) -> state_ok d2 (expected_state s) ->
+    error_is d1 c1 -> error_is d2 c2 ->
+    step_items s o1 d1 = step_items s o2 d2 -> c1 = c2.
+Proof. exact step_class_injective. Qed.
+
+Theorem err_class_injective_wire : forall t1 t2 s o1 o2 d1 d2 r1 r2 c1 c2,
+    documented_code c1 -> documented_code c2 ->
+    tlv_encode d1 = Ok r1 -> no_adj d1 = true -> in_vocab s d1 = true ->
+    tlv_encode d2 = Ok r2 -> no_adj d2 = true -> in_vocab s d2 = true ->
+    state_ok d1 (expected_state s) -> state_ok d2 (expected_state s) ->
+    error_is d1 c1 -> error_is d2 c2 ->
+    step_wire t1 s o1 r1 = step_wire t2 s o2 r2 -> c1 = c2.
+Proof. exact wire_class_injective. Qed.
+
+Theorem pairing_mgmt_class_injective : forall d1 d2 c1 c2,
+    documented_code c1 -> documented_code c2 -> state_ok d1 2 -> state_ok d2 2 ->
+    error_is d1 c1 -> error_is d2 c2 ->
+    mgmt_items IpAdd d1 = mgmt_items IpAdd d2 -> c1 = c2.
+Proof. exact mgmt_class_injective. Qed.
+
+(* ==== extension: the model's fuel always suffices (no theorem above is vacuous through OutOfFuel) ==== *)
+Theorem wire_never_out_of_fuel : forall t s o reply, step_wire t s o reply <> OutOfFuel.
+Proof. exact step_wire_no_fuel. Qed.
+
+Theorem ble_never_out_of_fuel : forall s o xs, step_ble s o xs <> OutOfFuel.
+Proof. exact step_ble_no_fuel. Qed.
+
+(* non-vacuity: a valid verify M2 + Busy, cut into three FragmentData pieces (one empty) and a FragmentLast *)
+Example c04_ble_nonvacuous :
+  let pk := repeat 9%N 32 in
+  let d := [(tState, [2%N]); (tPublicKey, pk); (tEncryptedData, [1%N]); (tError, [7%N])] in
+  exists blob, tlv_encode d = Ok blob /\
+    let pieces := [firstn 5 blob; []; firstn 20 (skipn 5 blob)] in
+    let last := skipn 25 blob in
+    concat pieces ++ last = blob /\ length pieces < 50 /\
+    step_ble VerifyM2 good_oracles (ble_script pieces last) = Err EBusy /\
+    step_ble VerifyM2 good_oracles ((3%N, blob) :: ble_script pieces last) = Err EPduStatus /\
+    mgmt_ble BleRemove (wrap [7%N; 1%N; 2%N]) = Err EAuthentication /\
+    mgmt_ble BleAdd (5%N, []) = Err EPduStatus.
+Proof.
+  cbv zeta. eexists. split; [vm_compute; reflexivity|].
+  split; [vm_compute; reflexivity|]. split; [cbn [length]; repeat constructor|].
+  repeat split; vm_compute; reflexivity.
+Qed.
+
 Print Assumptions err_never_success.
 Print Assumptions err_class.
 Print Assumptions err_class_wrong_state.
@@ -197,3 +314,19 @@ Print Assumptions pairing_mgmt_done_only_on_clean_reply.
 Print Assumptions pairing_mgmt_never_done_wire_ip.
 Print Assumptions pairing_mgmt_never_done_wire_ble.
 Print Assumptions err_never_success_wire_full_refuted.
+Print Assumptions ble_fragmented_reply_is_the_reply.
+Print Assumptions ble_err_never_success_fragmented.
+Print Assumptions ble_err_class_fragmented.
+Print Assumptions ble_unfragmented_reply.
+Print Assumptions ble_success_only_on_clean_reply.
+Print Assumptions ble_pdu_status_fails_step.
+Print Assumptions ble_pdu_status_never_success.
+Print Assumptions pairing_mgmt_ble_done_only_on_clean_reply.
+Print Assumptions pairing_mgmt_ble_never_done.
+Print Assumptions class_injective.
+Print Assumptions err_class_total.
+Print Assumptions err_class_injective.
+Print Assumptions err_class_injective_wire.
+Print Assumptions pairing_mgmt_class_injective.
+Print Assumptions wire_never_out_of_fuel.
+Print Assumptions ble_never_out_of_fuel.
